@@ -20,6 +20,12 @@ def check_C02(rep, known):
     scen_job(rep, 'ScenShoot', 'C02', [r'C02\.', r'build', r'varmap'], known)
     # degrees 1..5 of both schemes through node-independent special probes
     scen_job(rep, 'ScenDCs', 'C02s', [r'C02\.'], known, parts=4, replay=('dcs', 'replay'))
+    # B-spline signals (a parameter and a variable) in the ODE, seen at every collocation time (M = 3): ScenSpline family
+    recs, st = tlc.generate('ScenSpline', 'ScenSpline.cfg', 'C17', rep.tier, rep.seed, parts=1)
+    rep.add_tlc(st)
+    recs = [r for r in recs if r['sc']['sub'] == 0]
+    outs = engine.pool_map('splines', 'replay', recs)
+    engine.process_results(rep, recs, outs, [r'C17\.b:ode_param_dc'], known)
     # collocation rows of a sub-stage after an edit that follows a first transcription (multi-stage histories of the C12 family)
     recs, st = tlc.generate('ScenStages', 'ScenStages.cfg', 'C12', rep.tier, rep.seed, parts=16)
     recs = [r for r in recs if r['sc']['reset'] and r['sc']['kinds'][0] == 'D']
@@ -306,6 +312,12 @@ def check_C19(rep, known):
 
 def check_C03(rep, known):
     mc_job(rep, 'MC_Order', 'MC_Order.cfg', workers=8)
+    # SplineMethod's own quadrature (Milne rule per control interval) on uniform and geometric grids: ScenSplineM family
+    recs, st = tlc.generate('ScenSplineM', 'ScenSplineM.cfg', 'C17c', rep.tier, rep.seed, parts=1)
+    rep.add_tlc(st)
+    recs = [r for r in recs if r['sc']['refine'] == 1 and r['sc']['incF'] and r['sc']['incL'] and r['sc']['hz'] == 'num']
+    outs = engine.pool_map('splinem', 'replay', recs)
+    engine.process_results(rep, recs, outs, [r'C17\.c:f'], known)
     recs, st = tlc.generate('ScenFlow', 'ScenFlow.cfg', 'C03', rep.tier, rep.seed, parts=1)
     rep.add_tlc(st)
     outs = engine.pool_map('flow', 'replay', recs)
